@@ -36,7 +36,11 @@ def ortho_case(draw):
     a['klass'] = klass
     a['which'] = draw(st.integers(0, d - 1))
     sweep = draw(st.sampled_from(['left', 'right', 'both']))
-    case = {'a': a, 'sweep': sweep, 'explicit_args': draw(st.booleans())}
+    case = {'a': a, 'sweep': sweep, 'explicit_args': draw(st.booleans()),
+            # overall magnitude (carried by the first core, where `c * t` puts it): the sweeps are homogeneous
+            'scale_exp': draw(st.sampled_from([0, 0, 0, -16, -20, -30, 8])),
+            # the same object once more: a swept core array is changed in place by the caller, then the same sweep is requested again
+            'again': draw(st.sampled_from([None, None, 'scale', 'shift']))}
     if sweep == 'left' and d >= 2:
         if draw(st.booleans()):
             s = draw(st.integers(0, d - 2))
@@ -100,6 +104,8 @@ def body_ortho(case):
     spec = case['a']
     t = make(spec)
     d = t.order
+    if case.get('scale_exp', 0) and not spec.get('int_dtype'):
+        t.cores[0] = t.cores[0] * 10.0 ** case['scale_exp']
     before = build.snapshot(t)
     x = dense.contract(t.cores)
     scale = dense.scale_of(t.cores) if spec['klass'] != 'zero_core' else max(dense.scale_of([c for j, c in enumerate(t.cores) if j != spec['which']]), 1.0)
@@ -108,33 +114,40 @@ def body_ortho(case):
     lab = gen.spec_labels(spec)
     lab.add(spec['klass'])
     lab.add(sweep)
-    if sweep == 'left':
-        s, e = case.get('start', 0), case.get('end', d - 2)
-        if 'start' in case:
-            ret = t.ortho_left(start_index=s, end_index=e, **kw)
-            if (s, e) != (0, d - 2):
-                lab.add('partial')
+    if case.get('scale_exp', 0) and not spec.get('int_dtype'):
+        lab.add('rescaled')
+
+    def run_sweep():
+        if sweep == 'left':
+            s, e = case.get('start', 0), case.get('end', d - 2)
+            if 'start' in case:
+                ret = t.ortho_left(start_index=s, end_index=e, **kw)
+                if (s, e) != (0, d - 2):
+                    lab.add('partial')
+            else:
+                ret = t.ortho_left(**kw)
+            processed = list(range(s, e + 1))
+            touched = set(range(s, e + 2)) if processed else set()
+            side = 'left'
+        elif sweep == 'right':
+            s, e = case.get('start', d - 1), case.get('end', 1)
+            if 'start' in case:
+                ret = t.ortho_right(start_index=s, end_index=e, **kw)
+                if (s, e) != (d - 1, 1):
+                    lab.add('partial')
+            else:
+                ret = t.ortho_right(**kw)
+            processed = list(range(s, e - 1, -1))
+            touched = set(range(e - 1, s + 1)) if processed else set()
+            side = 'right'
         else:
-            ret = t.ortho_left(**kw)
-        processed = list(range(s, e + 1))
-        touched = set(range(s, e + 2)) if processed else set()
-        side = 'left'
-    elif sweep == 'right':
-        s, e = case.get('start', d - 1), case.get('end', 1)
-        if 'start' in case:
-            ret = t.ortho_right(start_index=s, end_index=e, **kw)
-            if (s, e) != (d - 1, 1):
-                lab.add('partial')
-        else:
-            ret = t.ortho_right(**kw)
-        processed = list(range(s, e - 1, -1))
-        touched = set(range(e - 1, s + 1)) if processed else set()
-        side = 'right'
-    else:
-        ret = t.ortho(**kw)
-        processed = list(range(d - 1, 0, -1))
-        touched = set(range(d))
-        side = 'right'
+            ret = t.ortho(**kw)
+            processed = list(range(d - 1, 0, -1))
+            touched = set(range(d))
+            side = 'right'
+        return ret, processed, touched, side
+
+    ret, processed, touched, side = run_sweep()
     require(ret is t, 'returns_self', 'the sweep did not return self')
     require_consistent(t, 'consistent')
     require(t.row_dims == before[1] and t.col_dims == before[2] and t.order == before[4], 'dims_unchanged',
@@ -150,6 +163,27 @@ def body_ortho(case):
         if i not in touched:
             same = t.cores[i].shape == before[0][i].shape and np.array_equal(t.cores[i], before[0][i])
             require(same, 'window', 'core %d lies outside the requested bonds but changed' % i)
+    if case.get('again') and processed and not spec.get('int_dtype'):
+        # the caller changes a swept core array in place (same ndarray object) and asks for the same sweep again
+        k = processed[spec['seed'] % len(processed)]
+        if np.all(np.isfinite(t.cores[k])) and t.cores[k].flags.writeable:
+            if case['again'] == 'scale':
+                t.cores[k] *= 3.0
+            else:
+                t.cores[k] += 0.5 * max(float(np.max(np.abs(t.cores[k]))), 1e-300)
+            x2 = dense.contract(t.cores)
+            scale2 = max(dense.scale_of(t.cores), 1e-300)
+            ranks2 = list(t.ranks)
+            ret, processed, touched, side = run_sweep()
+            require(ret is t, 'returns_self', 'the sweep did not return self')
+            require_consistent(t, 'consistent')
+            for q in range(d + 1):
+                require(t.ranks[q] <= ranks2[q], 'rank_monotone', 'second sweep: rank %d grew from %d to %d' % (q, ranks2[q], t.ranks[q]))
+            close(dense.contract(t.cores), x2, TOL, scale2, 'value_preserved', 'second %s sweep after core %d was changed in place' % (sweep, k))
+            for i in processed:
+                g = gram_left(t.cores[i]) if side == 'left' else gram_right(t.cores[i])
+                close(g, np.eye(g.shape[0]), TOL, 1.0, 'isometry', 'core %d (%s-orthonormal) after the second sweep; core %d had been changed in place' % (i, side, k))
+            lab.add('swept_again_after_in_place_change')
     return lab
 
 
@@ -159,5 +193,5 @@ def nt(labels):
 
 SUBCHECKS = [
     Sub('ortho', ortho_case(), body_ortho, nt, quick=800, thorough=12000, shards_quick=8,
-        classes=['left', 'right', 'both', 'partial', 'deficient', 'zero_core', 'aliased_cores', 'nearly_orthonormal', 'overparam', 'complex', 'size1mode', 'order1']),
+        classes=['left', 'right', 'both', 'partial', 'deficient', 'zero_core', 'aliased_cores', 'nearly_orthonormal', 'overparam', 'complex', 'size1mode', 'order1', 'rescaled', 'swept_again_after_in_place_change']),
 ]
